@@ -11,6 +11,8 @@
 (P) the statement itself on the implementation's trace: Lean monitors C01_order / C01_no_overlap (through the driver),
     cross-checked by the Python reference monitor runlib.py_monitor_c01.
 """
+import time
+
 import common
 import runlib
 
@@ -33,29 +35,39 @@ META = {
                 'doit/runner.py::Runner.run_tasks', 'doit/runner.py::Runner.run_all',
                 'doit/runner.py::MRunner.get_next_job', 'doit/runner.py::MRunner._run_start_processes',
                 'doit/runner.py::MRunner.run_tasks', 'doit/runner.py::MRunner.execute_task_subprocess'],
-    'technique': 'Lean 4 invariant proofs over a small-step model of dispatcher + runners (all schedules) '
-                 '+ trace-acceptance correspondence against the real doit under a deterministic thread scheduler and '
-                 'token-forced multiprocessing runs',
+    'technique': ('Lean 4 invariant proofs (Inv1 dispatcher, Inv2 runner discipline + event order, Inv3 counting) over '
+                  'a small-step transition system of TaskDispatcher + Runner/MRunner/MThreadRunner, for all schedules; '
+                  'trace-acceptance correspondence against the real doit (serial, real MThreadRunner under a '
+                  'deterministic scheduler incl. exhaustive completion orders of all small DAGs, real multiprocessing '
+                  'with token-forced completion order); Lean monitor on every implementation trace, Python reference '
+                  'monitor as cross-check '),
     'design_ref': '§5 C01, §4 M1, §6.3, §6.4',
-    'level_text': 'Machine-checked: in every reachable state of the run model (serial, thread, process; any number of '
-                  'workers; any interleaving; any set-iteration order) a task starts only after each of its dependencies '
-                  '(task_dep, setup, calc_dep, deps delivered by calc results) reported success or up-to-date, and no two '
-                  'dependency-related tasks run at once.  The model is tied to doit/control.py and doit/runner.py on every '
+    'level_text': ('Machine-checked (C01_order_serial, C01_order_parallel, C01_no_overlap): in every reachable state of '
+                  'the run model -- every task graph (also cyclic ones), every oracle (status/ignore/outcome/calc '
+                  'results), every set-iteration order, every interleaving of main and workers at queue-operation '
+                  "granularity, every numProcess -- a task's actions start only after each of its dependencies "
+                  '(task_dep, calc_dep, setup after expansion, and the deps delivered by calc tasks, via the known-deps '
+                  'list recorded when select_task said yes) reported success or up-to-date, and two dependency-related '
+                  'tasks never run at the same time.  The model is tied to doit/control.py and doit/runner.py on every '
                   'run: the real doit executes generated DAGs (all edge kinds, groups, shared deps, failures, ignores, '
-                  'up-to-date tasks, --continue/--always) and each observed event list must be accepted by the model; the '
-                  'property statement is evaluated on each observed trace by the Lean monitor and a Python reference monitor.',
-    'level_note': 'Trusted: Lean kernel; doitdrv; the Python harness (generator, recording reporter, deterministic '
-                  'scheduler that replaces MThreadRunner.Queue/Child, token controller for the process runner).  '
-                  'getargs / result_dep / target->file_dep are reduced to setup / task_dep edges by the harness\' own '
-                  'expansion (runlib.expand), checked against doit by the correspondence itself.  Monitor: Lean (driver) '
-                  'with a Python cross-check.',
+                  'up-to-date tasks, --continue/--always; serial, thread under adversarial and exhaustively enumerated '
+                  'schedules, sampled real multiprocessing runs) and every observed event list must be a trace of the '
+                  'model; the statement itself is evaluated on every observed trace. '),
+    'level_note': ('Trusted: Lean kernel (axioms propext/Classical.choice/Quot.sound); doitdrv; the Python harness '
+                  '(generator, recording reporter, deterministic scheduler replacing MThreadRunner.Queue/Child, token '
+                  'controller + counting Process subclass for MRunner).  getargs / result_dep / target->file_dep are '
+                  "reduced to setup / task_dep edges by the harness' own expansion (runlib.expand), validated against "
+                  'doit by the correspondence itself.  Monitor (P): Lean predicate through the driver, cross-checked by '
+                  'a Python monitor; a disagreement is reported as divergence. '),
     'rule': 'random DAGs of 3-9 tasks (hidden topological order, shuffled definition order; edge kinds task_dep, setup, '
             'calc_dep (+delivered deps), file_dep->target, getargs, result_dep; groups; shared deps), oracle per task '
             '(run/up-to-date/error, ignored, ok/failed/error, teardown), flags, selection all/names/targets, runner '
             'serial | thread k=1..4 x schedule policy | process k=2,3; non-trivial = has a dependency edge and at least '
             'one task reported; distinct = distinct rendered case + schedule',
-    'assumptions': ['actions touch only their own targets (granularity assumption of M1 for thread mode)',
-                    'process-mode runs are sampled (real OS scheduling; completion order forced, pick-up order not)'],
+    'assumptions': ['actions touch only their own targets (granularity assumption of M1 for thread mode: one transition = one thread '
+                    'running from one queue operation to the next)',
+                    'process-mode runs are sampled (real OS scheduling; completion order forced by tokens, pick-up order not)',
+                    'up-to-date status is produced by uptodate=[True] on a fresh DB (the status computation itself is M2)'],
     'trusted': ['deterministic thread scheduler and token controller of harness/runlib.py',
                 'own dependency expansion runlib.expand (getargs/result_dep/file_dep -> edges)'],
     'models': ['M1'],
@@ -133,6 +145,11 @@ def run(ctx, scale=1.0):
     ctx.count('corpus', sum(len(b.get('cases', [])) + len(b.get('exhaustive', [])) for b in cpool + cmain))
     pool, main = plan(ctx, scale)
     batches = cpool + exhaustive_batches(ctx) + pool
+    # the correspondence work must fit the budget even on a loaded machine: generated cases that have not started
+    # when 80% of what is left of the budget is used are skipped and counted (not_run_budget_exhausted)
+    deadline = time.time() + max(10.0, 0.8 * ctx.time_left())
+    for b in batches + cmain + main:
+        b['deadline'] = deadline
     for st in common.pmap(runlib.eval_batch, batches):
         st.merge_into(ctx)
     # process-mode runs fork real worker processes: not possible inside the (daemonic) pool workers
